@@ -58,8 +58,12 @@ def run_one(prop, tier, root, replay=None, write_ev=True, quiet=False):
             # vacuity guard: too few instances matched and nothing was refuted -> no verdict
             raise AnalysisError("; ".join(L.floor_failures))
     except AnalysisError as e:
-        print(f"ANALYSIS-ERROR property={prop} {e}")
-        return 2
+        if not L.findings:
+            print(f"ANALYSIS-ERROR property={prop} {e}")
+            return 2
+        # obligations already refuted stand; the rest of the run gave no verdict
+        print(f"note: analysis stopped early ({e}); reporting the {len(L.findings)} obligation(s) already refuted")
+        repo = Repo(root)
     except RecursionError as e:
         print(f"ANALYSIS-ERROR property={prop} recursion limit: {e}")
         return 2
